@@ -289,7 +289,15 @@ func denoteBool(raw any) Result {
 	case bool:
 		return acc(x)
 	case string:
-		if v, ok := boolWords[strings.ToLower(x)]; ok {
+		// the boolean words are ASCII; a string with any other letter in it is not one of them (lower-casing would
+		// turn the dotted capital I of "DİSABLE" into an i)
+		ascii := true
+		for i := 0; i < len(x); i++ {
+			if x[i] >= 0x80 {
+				ascii = false
+			}
+		}
+		if v, ok := boolWords[strings.ToLower(x)]; ok && ascii {
 			return acc(v)
 		}
 		return rej("%q is not a boolean word", x)
